@@ -100,6 +100,7 @@ func (g *FastGoBackend) GenerateOne(ast *parser.Thrift) (*plugin.Generated, erro
 	}
 
 	w := newCodewriter()
+	w.elemByValue = g.utils.Features().ValueTypeForSIC
 
 	// TODO: only supports struct now, other dirty jobs will be done in golang.GoBackend
 	for _, s := range scope.Structs() {
